@@ -915,8 +915,15 @@ class Manager:
         """
         # process tasks
         if self._tasks:
-            for task in self._tasks.copy():
-                self.processTask(*task)
+            # tasks are run by the ticking thread: events they fire are fired
+            # "while handling an event", just like events fired by handlers
+            old_flushing = self._flushing_thread
+            try:
+                self._flushing_thread = current_thread()
+                for task in self._tasks.copy():
+                    self.processTask(*task)
+            finally:
+                self._flushing_thread = old_flushing
 
         if self._running:
             self.fire(generate_events(self._lock, timeout), '*')
